@@ -46,7 +46,7 @@ class LanguageDesc:
         name: str,
         pattern: str | None = None,
         description: str = "",
-        metamodel: Any = Callable[..., Any],
+        metamodel: Callable[..., Any] | None = None,
     ) -> None:
         self.name = name
         self.pattern = pattern
